@@ -164,6 +164,21 @@ def enumerate_cases(tier):
         plan = templates[ti]()
         for dev, meth in ((0, "stage"), (1, "set"), (2, "trigger"), (1, "read"), (0, "unstage"), (1, "stop")):
             out.append(base(plan, faults=[[dev, meth, 0, "EDev"]], tag="t%d fault %d.%s" % (ti, dev, meth)))
+    # histories of two calls on one engine: what call 1 leaves behind (a cleared checkpoint, an abort, a failure,
+    # a pending deferred pause, statuses) must not leak into call 2
+    firsts = [seq(m("open_run"), m("checkpoint"), m("null"), m("clear_checkpoint"), m("null"), m("close_run")),
+              seq(m("open_run"), m("checkpoint"), m("null"), ["raise", "EUser1"]),
+              seq(m("open_run"), m("checkpoint"), m("pause", None, [], {"defer": True}), m("null"), m("close_run")),
+              seq(m("stage", 0), m("open_run"), m("checkpoint"), m("set", 1, [1], {"group": "g"}), m("null"))]
+    second = seq(m("open_run"), m("null"), m("null"), m("checkpoint"), m("null"), m("close_run"))
+    for fi, first in enumerate(firsts):
+        n1 = count_msgs(first) + 3
+        out.append({"calls": [first, second], "devs": DEVS, "inject": [], "script": [], "tag": "c2.%d plain" % fi})
+        for at in range(n1, n1 + count_msgs(second) + 4):
+            for r in ("pause", "suspend", "defer", "abort"):
+                inj = [{"at": at, "req": r}] + ([{"at": at + 3, "req": "release", "sid": 0}] if r == "suspend" else [])
+                out.append({"calls": [first, second], "devs": DEVS, "inject": inj, "script": ["resume"],
+                            "tag": "c2.%d %s@%d" % (fi, r, at)})
     # statuses finished by hand, successfully or not
     for ti in (2, 4):
         plan = templates[ti]()
